@@ -22,6 +22,9 @@ cfg_if! {
         #[cfg(feature = "r1cs")]
         pub use ark_curve::r1cs;
 
+        #[cfg(decaf377_verif)]
+        pub use ark_curve::verif;
+
 
     } else {
         mod min_curve;
